@@ -43,7 +43,7 @@ func init() {
 		Run: run,
 		Floors: func(t string) map[string]int64 {
 			return map[string]int64{"spelling.esri": 5000, "spelling.ogc": 1000, "section_order.unit_before_parameters": 1000, "unit.foot": 1000, "unit.us_foot": 1000, "towgs84.3": 1000, "towgs84.7": 1000, "towgs84.none": 1000,
-				"proj.merc": 300, "proj.lcc": 300, "proj.aea": 300, "proj.eqdc": 300, "proj.tmerc": 300, "proj.longlat": 300, "registry.names": 100, "registry.equal_pairs": 500, "registry.unequal_pairs": 300, "registry.prj_files": 50, "twin.negated": 2000, "twin.nudged": 1000}
+				"proj.merc": 300, "proj.lcc": 300, "proj.aea": 300, "proj.eqdc": 300, "proj.tmerc": 300, "proj.longlat": 300, "registry.names": 100, "registry.equal_pairs": 500, "registry.unequal_pairs": 300, "registry.prj_files": 50, "twin.negated": 2000, "names.short_empty_or_unusual": 1000, "twin.nudged": 1000}
 		},
 	})
 }
@@ -61,6 +61,7 @@ type sys struct {
 	ogc          bool
 	unitFirst    bool
 	pretty       bool
+	oddNames     bool // a WKT name other than the usual ESRI-style one (short, empty, bare prefix, blanks, non-ASCII)
 }
 
 var F = crsgen.F
@@ -69,7 +70,21 @@ func genSys(r *crsgen.R) *sys {
 	s := &sys{toMeter: 1}
 	a := r.Range(6.30e6, 6.40e6)
 	rf := r.Range(290, 305)
-	sph := fmt.Sprintf(`SPHEROID["Verif_Spheroid",%s,%s]`, F(a), F(rf))
+	// names are free text in WKT: mostly the ESRI-style ones, sometimes very short, empty, a bare
+	// prefix, with blanks or non-ASCII letters (none of them names a built-in datum or ellipsoid)
+	pickName := func(usual string, others ...string) string {
+		if r.Chance(0.75) {
+			return usual
+		}
+		return others[r.Intn(len(others))]
+	}
+	sphName := pickName("Verif_Spheroid", "s", "", "Verif spheroid 1", "Ж")
+	datName := pickName("D_Verif_Custom", "Verif_Custom", "d", "X", "", "d_", "D_", "Verif datum with blanks", "Δ_custom")
+	gcsName := pickName("GCS_Verif_Custom", "g", "", "Verif geographic", "GCS_")
+	if datName != "D_Verif_Custom" || gcsName != "GCS_Verif_Custom" || sphName != "Verif_Spheroid" {
+		s.oddNames = true
+	}
+	sph := fmt.Sprintf(`SPHEROID["%s",%s,%s]`, sphName, F(a), F(rf))
 	ell4 := " +a=" + F(a) + " +rf=" + F(rf)
 	tw, tw4 := "", ""
 	switch r.Intn(3) {
@@ -81,7 +96,7 @@ func genSys(r *crsgen.R) *sys {
 		crsgen.SparseTowgs84(r, p)
 		tw, tw4, s.towgs = ",TOWGS84["+strings.Join(p, ",")+"]", " +towgs84="+strings.Join(p, ","), 7
 	}
-	geog := `GEOGCS["GCS_Verif_Custom",DATUM["D_Verif_Custom",` + sph + tw + `],PRIMEM["Greenwich",0.0],UNIT["Degree",0.0174532925199433]]`
+	geog := `GEOGCS["` + gcsName + `",DATUM["` + datName + `",` + sph + tw + `],PRIMEM["Greenwich",0.0],UNIT["Degree",0.0174532925199433]]`
 	s.geoWKT = geog
 	s.geo4 = "+proj=longlat" + ell4 + tw4 + " +no_defs"
 	unitWKT, unit4 := `UNIT["Meter",1.0]`, ""
@@ -278,6 +293,9 @@ func runSpelling(c *core.Ctx) {
 	}
 	if s.pretty {
 		c.Count("layout.multi_line")
+	}
+	if s.oddNames {
+		c.Count("names.short_empty_or_unusual")
 	}
 	switch s.towgs {
 	case 0:
